@@ -85,6 +85,9 @@ class _Obj:
     def __setitem__(self, k, v):
         self._items[k] = v
 
+    def __contains__(self, k):
+        return k in self._items
+
 
 class _TaskManager:
     def ensure_future(self, coro):
